@@ -147,7 +147,14 @@ def replay(cfg, events):
                         text = "DELETE DATA { %s %s %s }" % (s, p, o)
                     else:
                         text = "DELETE { %s %s ?o } INSERT { %s %s %s } WHERE { %s %s ?o }" % (s, p, s, p, v.conc(e["o2"]).n3(), s, p)
-                    facade(e["g"]).update(text)
+                    form = e.get("form", "ground")
+                    if e["kind"] == "replace" and form != "ground":
+                        # the same operation with the subject supplied through initBindings; the WHERE keyword in any case
+                        kw = {"bound_upper": "WHERE", "bound_lower": "where", "bound_mixed": "Where"}[form]
+                        text = "DELETE { ?s %s ?o } INSERT { ?s %s %s } %s { ?s %s ?o }" % (p, p, v.conc(e["o2"]).n3(), kw, p)
+                        facade(e["g"]).update(text, initBindings={"s": v.conc(e["t"][0])})
+                    else:
+                        facade(e["g"]).update(text)
                 elif op == "commit":
                     store.commit()
                 elif op == "rollback":
